@@ -320,6 +320,37 @@ fn arc_case(cx: &mut Cx, a: Arc<f64>, tol: f64) {
     if pts.len() != pieces.len() || pts.iter().zip(pieces.iter()).any(|(p, s)| (*p - s.1).length() > 1e-6 * (1.0 + a.radii.length())) {
         fail(cx, "arc flattened() iterator differs from the callback", format!("{} {} vs {}", label, pts.len(), pieces.len()), None);
     }
+    // the callback with parameters: same segments, ranges chained from 0 to exactly 1, strictly increasing, and the
+    // arc sampled at the end of a range is the end of the segment
+    match catch(AssertUnwindSafe(|| {
+        let mut v = Vec::new();
+        a.for_each_flattened_with_t(tol, &mut |l: &LineSegment<f64>, t: std::ops::Range<f64>| v.push((l.from, l.to, t.start, t.end)));
+        v
+    })) {
+        None => fail(cx, "arc for_each_flattened_with_t panicked", label.clone(), None),
+        Some(v) => {
+            let sc = 1.0 + a.radii.length();
+            if v.len() != pieces.len() || v.iter().zip(pieces.iter()).any(|(x, s)| (x.0 - s.0).length() > 1e-6 * sc || (x.1 - s.1).length() > 1e-6 * sc) {
+                fail(cx, "arc for_each_flattened differs from for_each_flattened_with_t", label.clone(), None);
+            }
+            let mut ok = !v.is_empty() && v[0].2 == 0.0 && v.last().unwrap().3 == 1.0;
+            for x in &v {
+                if !(x.2 < x.3) {
+                    ok = false;
+                }
+            }
+            for w2 in v.windows(2) {
+                if w2[0].3 != w2[1].2 {
+                    ok = false;
+                }
+            }
+            if !ok {
+                fail(cx, "arc parameter ranges are not chained from 0 to exactly 1 in increasing order", format!("{} -> {:?}", label, v.iter().map(|x| (x.2, x.3)).collect::<Vec<_>>()), None);
+            } else if v.iter().any(|x| (a.sample(x.3) - x.1).length() > 1e-6 * sc) {
+                fail(cx, "an arc segment does not end at the arc sampled at the end of its parameter range", label.clone(), None);
+            }
+        }
+    }
     let poly: Vec<(f64, f64)> = std::iter::once((pieces[0].0.x, pieces[0].0.y)).chain(pieces.iter().map(|p| (p.1.x, p.1.y))).collect();
     let dev = deviation(&|t| { let p = a.sample(t); (p.x, p.y) }, &poly);
     // K10: the arc step assumes a locally constant radius and a tolerance small against the radii
